@@ -104,13 +104,13 @@ def thorough_selftest(prop, repo, rep):
     from . import mutate
     from concurrent.futures import ProcessPoolExecutor
     muts = []
-    for m in mutate.load_catalogue() + mutate.seeded():
+    for m in mutate.load_catalogue() + mutate.seeded() + mutate.refactorings():
         if m['kind'] == 'equivalent' or prop in m.get('props', []) or prop in m.get('silent', []):
             muts.append(m)
     with ProcessPoolExecutor(max_workers=min(12, max(1, len(muts)))) as ex:
         results = list(ex.map(_eval_mutant, [(m, repo, prop) for m in muts]))
     summary = dict(replayed=len(results), detected=0, missed=[], silent_as_expected=0, overreported=[], equivalent_silent=0,
-                   false_alarms=[], skipped=[])
+                   false_alarms=[], known_limit_alarms=[], skipped=[])
     samples = []
     for m, r in zip(muts, results):
         st = r['status']
@@ -120,6 +120,8 @@ def thorough_selftest(prop, repo, rep):
         if r['kind'] == 'equivalent':
             if st == 'silent':
                 summary['equivalent_silent'] += 1
+            elif m.get('known_limit'):
+                summary['known_limit_alarms'].append(r['id'])
             else:
                 summary['false_alarms'].append(r['id'])
         else:
@@ -143,7 +145,8 @@ def thorough_selftest(prop, repo, rep):
     for mid in summary['false_alarms'] + summary['overreported']:
         print(f'SELFTEST-WARNING property={prop}: behaviour-preserving / out-of-scope mutant {mid} was reported (specificity gap; verdict on the tree unaffected)')
     print(f"{prop}: thorough self-test: {summary['detected']} breaking mutants/seeds detected, {len(summary['missed'])} missed, "
-          f"{summary['equivalent_silent']} negative controls silent, {len(summary['false_alarms'])} false alarms, {len(summary['skipped'])} skipped")
+          f"{summary['equivalent_silent']} negative controls silent, {len(summary['false_alarms'])} false alarms, "
+          f"{len(summary['known_limit_alarms'])} alarms on documented-limit refactorings, {len(summary['skipped'])} skipped")
 
 
 def explain(prop, path):
